@@ -32,7 +32,7 @@ Update(a) == /\ Len(hist) < MaxLen
 Next == \E a \in 1..A : Update(a)
 
 Cfg == Cfgs[c]
-Raw == Force([i \in 1..Len(hist) |-> QFrac(hist[i], Unit)])
+Raw == Force([i \in 1..Len(hist) |-> QFrac(IF hist[i] = 2147483647 THEN 0 ELSE hist[i], Unit)])   \* 2147483647: the symbol fed as -0.0
 Tiny == WPow10(5)                    \* 1e-15 in fixed point: the machines and the definitions are both 20-decimal
 
 SameVal(mo, r) ==
